@@ -73,6 +73,11 @@ fn text(cx: &Cx, class: &str, j: &Value, path: &[&str], want: &str, f: &[u8]) {
     }
 }
 
+/// the extended-squitter carriers of an ME field: ADS-B (DF17) and three DF18 control fields
+fn carriers(me: &[u8; 7]) -> Vec<Vec<u8>> {
+    vec![df17(5, ADDR, me, 0), df18(0, ADDR, me, 0), df18(2, ADDR, me, 0), df18(6, ADDR, me, 0)]
+}
+
 // ---------------------------------------------------------------------------
 
 fn addresses(ctx: &Ctx, cx: &Cx) {
@@ -130,9 +135,10 @@ fn callsigns(cx: &Cx) {
             let want: String = base.chars().enumerate().map(|(i, c)| if i == pos { ch } else { c }).filter(|c| *c != ' ').collect();
             for tc in 1..=4u8 {
                 for ca in 0..8u8 {
-                    let f = df17(5, ADDR, &me_bds08(tc, ca, &cs), 0);
-                    if let Some(j) = dj(cx, "callsign:bds08", &f) {
-                        text(cx, "callsign:bds08", &j, &["callsign"], &want, &f);
+                    for f in carriers(&me_bds08(tc, ca, &cs)) {
+                        if let Some(j) = dj(cx, "callsign:bds08", &f) {
+                            text(cx, "callsign:bds08", &j, &["callsign"], &want, &f);
+                        }
                     }
                 }
             }
@@ -189,13 +195,17 @@ fn altitudes(cx: &Cx) {
             continue;
         }
         for tc in (9..=18u8).chain(20..=22) {
-            let f = df17(5, ADDR, &me_bds05(tc, 0, 0, code, 0, 0, 93000, 51372), 0);
             let class = if tc < 19 { "altitude:AC12:barometric" } else { "altitude:AC12:GNSS" };
-            if let Some(j) = dj(cx, class, &f) {
-                if !alt_ok(std, j["altitude"].as_f64()) {
-                    bad(cx, class, format!("TC {tc} altitude code {code:#05x} encodes {} ft, decoded as {}", std.unwrap(), j["altitude"]), &f, json!({"want": std}));
-                } else {
-                    cx.reported.fetch_add(1, Ordering::Relaxed);
+            for (ci, f) in carriers(&me_bds05(tc, (code & 3) as u8, (code >> 2 & 1) as u8, code, (code >> 3 & 1) as u8, (code >> 4 & 1) as u8, 93000, 51372)).into_iter().enumerate() {
+                if ci > 0 && tc != 11 && tc != 20 {
+                    continue; // DF18 carriers on one barometric and one GNSS type code
+                }
+                if let Some(j) = dj(cx, class, &f) {
+                    if !alt_ok(std, j["altitude"].as_f64()) {
+                        bad(cx, class, format!("TC {tc} altitude code {code:#05x} encodes {} ft, decoded as {} (frame {})", std.unwrap(), j["altitude"], hexs(&f)), &f, json!({"want": std}));
+                    } else {
+                        cx.reported.fetch_add(1, Ordering::Relaxed);
+                    }
                 }
             }
         }
@@ -216,9 +226,10 @@ fn squawks(cx: &Cx) {
         if let Some(j) = dj(cx, "squawk:DF21", &f) {
             text(cx, "squawk:DF21", &j, &["squawk"], &want, &f);
         }
-        let f = df17(5, ADDR, &me_bds61(1, (s & 7) as u8 % 6, code), 0);
-        if let Some(j) = dj(cx, "squawk:bds61", &f) {
-            text(cx, "squawk:bds61", &j, &["squawk"], &want, &f);
+        for f in carriers(&me_bds61(1, (s & 7) as u8 % 6, code)) {
+            if let Some(j) = dj(cx, "squawk:bds61", &f) {
+                text(cx, "squawk:bds61", &j, &["squawk"], &want, &f);
+            }
         }
     }
     cx.rep.part("squawk", cx.n.load(Ordering::Relaxed), json!({}));
@@ -266,16 +277,23 @@ fn velocities(ctx: &Ctx, cx: &Cx) {
     });
     // subtype 3: heading (every code, status set), airspeed (every code, IAS and TAS)
     for h in 0..1024u16 {
-        let f = df17(5, ADDR, &me_bds09_as(3, 0, 0, 0, 1, h, 0, 251, 0, 0, 10, 0, 5), 0);
-        if let Some(j) = dj(cx, "velocity:heading", &f) {
-            num(cx, "velocity:heading", &j, &["heading"], h as f64 * 360.0 / 1024.0, 1e-9, &f);
+        for ty in [0u8, 1] {
+            // the other flags of the message vary with the code (intent change, IFR, NUC, vertical-rate source and signs)
+            for f in carriers(&me_bds09_as(3, (h & 1) as u8, (h >> 1 & 1) as u8, (h >> 2 & 7) as u8, 1, h, ty, 251, (h >> 5 & 1) as u8, (h >> 6 & 1) as u8, 10 + (h & 255), (h >> 7 & 1) as u8, 5)) {
+                if let Some(j) = dj(cx, "velocity:heading", &f) {
+                    num(cx, "velocity:heading", &j, &["heading"], h as f64 * 360.0 / 1024.0, 1e-9, &f);
+                }
+            }
         }
     }
     for a in 1..=1023u16 {
         for (ty, key) in [(0u8, "IAS"), (1, "TAS")] {
-            let f = df17(5, ADDR, &me_bds09_as(3, 0, 0, 0, 1, 512, ty, a, 0, 0, 10, 0, 5), 0);
-            if let Some(j) = dj(cx, "velocity:airspeed", &f) {
-                num(cx, &format!("velocity:airspeed:{key}"), &j, &[key], a as f64 - 1.0, 0.0, &f);
+            for hs in [0u8, 1] {
+                for f in carriers(&me_bds09_as(3, 0, 0, 0, hs, 512 + (a & 511), ty, a, (a & 1) as u8, (a >> 1 & 1) as u8, 10, 0, 5)) {
+                    if let Some(j) = dj(cx, "velocity:airspeed", &f) {
+                        num(cx, &format!("velocity:airspeed:{key}"), &j, &[key], a as f64 - 1.0, 0.0, &f);
+                    }
+                }
             }
         }
     }
@@ -284,9 +302,12 @@ fn velocities(ctx: &Ctx, cx: &Cx) {
         for svr in [0u8, 1] {
             for src in [0u8, 1] {
                 let want = (vr as f64 - 1.0) * 64.0 * if svr == 1 { -1.0 } else { 1.0 };
-                let f = df17(5, ADDR, &me_bds09_gs(1, 0, 0, 0, 0, 100, 1, 200, src, svr, vr, 0, 5), 0);
-                if let Some(j) = dj(cx, "velocity:vertical_rate", &f) {
-                    num(cx, "velocity:vertical_rate", &j, &["vertical_rate"], want, 0.0, &f);
+                for st in [1u8, 3] {
+                    for f in carriers(&me_bds09_gs(st, (vr & 1) as u8, (vr >> 1 & 1) as u8, (vr >> 2 & 7) as u8, 0, 100, 1, 200, src, svr, vr, (vr >> 5 & 1) as u8, (vr & 0x7f) as u8)) {
+                        if let Some(j) = dj(cx, "velocity:vertical_rate", &f) {
+                            num(cx, "velocity:vertical_rate", &j, &["vertical_rate"], want, 0.0, &f);
+                        }
+                    }
                 }
             }
         }
@@ -294,9 +315,12 @@ fn velocities(ctx: &Ctx, cx: &Cx) {
     for d in 1..=126u8 {
         for s in [0u8, 1] {
             let want = (d as f64 - 1.0) * 25.0 * if s == 1 { -1.0 } else { 1.0 };
-            let f = df17(5, ADDR, &me_bds09_gs(1, 0, 0, 0, 0, 100, 1, 200, 0, 0, 10, s, d), 0);
-            if let Some(j) = dj(cx, "velocity:geo_minus_baro", &f) {
-                num(cx, "velocity:geo_minus_baro", &j, &["geo_minus_baro"], want, 0.0, &f);
+            for st in [1u8, 3] {
+                for f in carriers(&me_bds09_gs(st, 0, 0, 0, 0, 100, 1, 200, (d & 1) as u8, (d >> 1 & 1) as u8, 10 + d as u16, s, d)) {
+                    if let Some(j) = dj(cx, "velocity:geo_minus_baro", &f) {
+                        num(cx, "velocity:geo_minus_baro", &j, &["geo_minus_baro"], want, 0.0, &f);
+                    }
+                }
             }
         }
     }
@@ -321,7 +345,7 @@ fn surface(cx: &Cx) {
     for tc in 5..=8u8 {
         for mov in 1..=124u8 {
             let (lo, step) = movement(mov);
-            let f = df17(5, ADDR, &me_bds06(tc, mov, 1, 64, 0, 0, 1000, 2000), 0);
+            for f in carriers(&me_bds06(tc, mov, mov & 1, 64 + (mov & 63), (mov >> 1) & 1, (mov >> 2) & 1, 1000, 2000)) {
             if let Some(j) = dj(cx, "surface:movement", &f) {
                 // any speed of the code's interval [lo, lo+step) is within one step of a correct answer
                 let g = j["groundspeed"].as_f64();
@@ -332,11 +356,13 @@ fn surface(cx: &Cx) {
                     _ => bad(cx, "surface:movement", format!("movement code {mov} stands for {lo}..{} kt, decoded as {:?}", lo + step, g), &f, json!({"lo": lo, "step": step})),
                 }
             }
+            }
         }
         for trk in 0..128u8 {
-            let f = df17(5, ADDR, &me_bds06(tc, 20, 1, trk, 0, 0, 1000, 2000), 0);
-            if let Some(j) = dj(cx, "surface:track", &f) {
-                num(cx, "surface:track", &j, &["track"], trk as f64 * 360.0 / 128.0, 1e-9, &f);
+            for f in carriers(&me_bds06(tc, 20 + (trk & 63), 1, trk, trk & 1, (trk >> 1) & 1, 1000, 2000)) {
+                if let Some(j) = dj(cx, "surface:track", &f) {
+                    num(cx, "surface:track", &j, &["track"], trk as f64 * 360.0 / 128.0, 1e-9, &f);
+                }
             }
         }
     }
@@ -346,24 +372,33 @@ fn surface(cx: &Cx) {
 fn bds62(cx: &Cx) {
     for v in (0..=65400u32).step_by(100) {
         let code = ((v as f64 / 32.0).round() as u16) + 1;
-        let f = df17(5, ADDR, &me_bds62(1, 0, code, 300, 1, 100, 9, 1, 3, 0), 0);
-        if let Some(j) = dj(cx, "bds62:selected_altitude", &f) {
-            if v == 0 && j["selected_altitude"].is_null() {
-                continue; // 0 ft may be reported unavailable
+        for (src, modes) in [(0u8, 0u8), (1, 0xff), (1, 0x80)] {
+            for f in carriers(&me_bds62(1, src, code, 300, 1, 100, 9, 1, 3, modes)) {
+                if let Some(j) = dj(cx, "bds62:selected_altitude", &f) {
+                    if v == 0 && j["selected_altitude"].is_null() {
+                        continue; // 0 ft may be reported unavailable
+                    }
+                    num(cx, "bds62:selected_altitude", &j, &["selected_altitude"], v as f64, 32.0, &f);
+                }
             }
-            num(cx, "bds62:selected_altitude", &j, &["selected_altitude"], v as f64, 32.0, &f);
         }
     }
     for q in 1..=511u16 {
-        let f = df17(5, ADDR, &me_bds62(1, 0, 1000, q, 1, 100, 9, 1, 3, 0), 0);
-        if let Some(j) = dj(cx, "bds62:qnh", &f) {
-            num(cx, "bds62:qnh", &j, &["barometric_setting"], 800.0 + (q as f64 - 1.0) * 0.8, 1e-3, &f);
+        for (src, hs, modes) in [(0u8, 1u8, 0u8), (1, 0, 0xff), (0, 1, 0xc1)] {
+            for f in carriers(&me_bds62(1, src, 1000 + (q & 255), q, hs, 100, (q & 15) as u8, 1, 3, modes)) {
+                if let Some(j) = dj(cx, "bds62:qnh", &f) {
+                    num(cx, "bds62:qnh", &j, &["barometric_setting"], 800.0 + (q as f64 - 1.0) * 0.8, 1e-3, &f);
+                }
+            }
         }
     }
     for h in 0..512u16 {
-        let f = df17(5, ADDR, &me_bds62(1, 0, 1000, 300, 1, h, 9, 1, 3, 0), 0);
-        if let Some(j) = dj(cx, "bds62:heading", &f) {
-            num(cx, "bds62:heading", &j, &["selected_heading"], h as f64 * 180.0 / 256.0, 1e-4, &f);
+        for modes in [0u8, 0xff] {
+            for f in carriers(&me_bds62(1, (h & 1) as u8, 1000, 300 + (h & 127), 1, h, 9, 1, 3, modes)) {
+                if let Some(j) = dj(cx, "bds62:heading", &f) {
+                    num(cx, "bds62:heading", &j, &["selected_heading"], h as f64 * 180.0 / 256.0, 1e-4, &f);
+                }
+            }
         }
     }
     cx.rep.part("BDS 6,2", cx.n.load(Ordering::Relaxed), json!({}));
@@ -386,9 +421,11 @@ fn bds40(cx: &Cx) {
             }
         }
         for q in 0..4096u32 {
-            let f = commb_frame(df, &mb_bds40(Some(2000), Some(2000), Some(q), None, None));
-            if let Some(j) = dj(cx, "bds40:qnh", &f) {
-                num(cx, "bds40:qnh", &j, &["bds40", "barometric_setting"], 800.0 + q as f64 * 0.1, 1e-6, &f);
+            for (modes, source) in [(None, None), (Some(5), Some(3)), (Some(0), Some(1))] {
+                let f = commb_frame(df, &mb_bds40(Some(2000), if q & 1 == 0 { Some(2000) } else { None }, Some(q), modes, source));
+                if let Some(j) = dj(cx, "bds40:qnh", &f) {
+                    num(cx, "bds40:qnh", &j, &["bds40", "barometric_setting"], 800.0 + q as f64 * 0.1, 1e-6, &f);
+                }
             }
         }
     }
